@@ -75,12 +75,16 @@ impl<T> Mutex<T> {
 }
 
 impl<'a, T> MutexGuard<'a, T> {
-    fn log_cs(&self) {
+    fn snapshot_line(&self) -> Option<String> {
         if tracing() {
             if let (Some(o), Some(g)) = (self.m.obs.get(), self.g.as_ref()) {
-                emit(&format!("cs {}{} {}", o.kind, o.id, (o.snap)(&**g)));
+                return Some(format!("cs {}{} {}", o.kind, o.id, (o.snap)(&**g)));
             }
         }
+        None
+    }
+    fn log_cs(&self) {
+        if let Some(line) = self.snapshot_line() { emit(&line); }
     }
 }
 
@@ -96,8 +100,13 @@ impl<'a, T> DerefMut for MutexGuard<'a, T> {
 impl<'a, T> Drop for MutexGuard<'a, T> {
     fn drop(&mut self) {
         if self.g.is_some() {
-            self.log_cs();
+            // The snapshot is taken while the lock is held, but the event is written only after the
+            // release: the controlled runtime's scheduling point comes BEFORE the release, so events
+            // of other threads that run at that point (and cannot touch this mutex) must precede ours,
+            // and what this thread does next follows its own release without another scheduling point.
+            let line = self.snapshot_line();
             self.g.take();
+            if let Some(line) = line { emit(&line); }
         }
     }
 }
@@ -134,8 +143,8 @@ impl Condvar {
         }
     }
 
-    pub fn notify_one(&self) { if !self.silent { emit(&format!("notify1 C{}", self.id)); } self.inner.notify_one(); }
-    pub fn notify_all(&self) { if !self.silent { emit(&format!("notifyall C{}", self.id)); } self.inner.notify_all(); }
+    pub fn notify_one(&self) { self.inner.notify_one(); if !self.silent { emit(&format!("notify1 C{}", self.id)); } }
+    pub fn notify_all(&self) { self.inner.notify_all(); if !self.silent { emit(&format!("notifyall C{}", self.id)); } }
 }
 
 impl Default for Condvar { fn default() -> Self { Condvar::new() } }
@@ -160,8 +169,9 @@ pub mod mpsc {
 
     impl<T> Sender<T> {
         pub fn send(&self, t: T) -> Result<(), SendError<T>> {
+            let r = self.inner.send(t);
             emit(&format!("send M{}", self.id));
-            self.inner.send(t)
+            r
         }
         pub fn verif_name(&self) -> String { format!("M{}", self.id) }
     }
